@@ -145,8 +145,15 @@ func createCompiledRouteHandler(route *ast.Route, bytecode []byte, wsHub *websoc
 		// params) so compiled routes can read query.X the same as interpreted
 		// routes. Reuses interpreter.ProcessQueryParams to guarantee parity
 		// with interpreter mode (issue #240).
-		rawQuery := map[string][]string(ctx.Request.URL.Query())
-		queryParams, qErr := interpreter.ProcessQueryParams(rawQuery, route.QueryParams)
+		// The raw query is split by the interpreter's own function as well:
+		// URL.Query() silently drops pairs it cannot parse (a bad escape, a
+		// ";"), so ?n=%zz ran the compiled route with n = null while the
+		// interpreted route answered 400.
+		var queryParams map[string]interface{}
+		rawQuery, qErr := interpreter.ExtractRawQueryParams("?" + ctx.Request.URL.RawQuery)
+		if qErr == nil {
+			queryParams, qErr = interpreter.ProcessQueryParams(rawQuery, route.QueryParams)
+		}
 		if qErr != nil {
 			// Same pattern as success responses below (ctx.StatusCode +
 			// WriteHeader): ctx.StatusCode is for middleware/logging, but
